@@ -14,11 +14,39 @@ import (
 )
 
 func runCase(c *kit.Case) {
+	// 2 of 5 cases race an operation of connection 0 against one of the calls the
+	// library makes to its broker / presence manager (grid by case index)
+	var br *churn.BoundaryRace
+	if c.Index%5 >= 3 {
+		k := c.Index / 5
+		br = &churn.BoundaryRace{Site: churn.Sites[k%len(churn.Sites)], Op: churn.RaceOps[(k/len(churn.Sites))%len(churn.RaceOps)], Nth: 1 + (k/(len(churn.Sites)*len(churn.RaceOps)))%3}
+		if c.Index%5 == 4 && k%2 == 0 {
+			// history reads (subscribe-time and periodic position checks) are the longest
+			// round trips of a real deployment: give them a larger share
+			br.Site, br.Nth = "broker.History", 1+(k/2)%4
+		}
+		if br.Site == "broker.Unsubscribe" || br.Site == "presence.Remove" {
+			br.Nth = 1 // these calls are rare within one case (deferred by the dissolver / only at subscription end)
+		}
+	}
+	presence := c.R.Chance(1, 3)
+	joinLeave := c.R.Chance(1, 3)
+	if br != nil {
+		presence = presence || br.Site == "presence.Add" || br.Site == "presence.Remove"
+		joinLeave = joinLeave || br.Site == "broker.PublishJoin" || br.Site == "broker.PublishLeave"
+	}
 	e := churn.New(c, churn.Options{
-		Conns: [2]int{2, 4}, Channels: [2]int{2, 3}, Positioned: true, Closes: true, AsyncLong: true,
-		OpsPerConn: [2]int{3, 9}, Presence: c.R.Chance(1, 3), JoinLeave: c.R.Chance(1, 3),
+		Conns: [2]int{2, 4}, Channels: [2]int{2, 3}, Positioned: true, Closes: true, AsyncLong: br == nil,
+		OpsPerConn: [2]int{3, 9}, Presence: presence, JoinLeave: joinLeave, BoundaryRace: br,
 	})
 	e.Run()
+	if br != nil && br.Fired.Load() {
+		c.Count("boundary_race_"+br.Site, 1)
+		c.Count("boundary_race_op_"+br.Op, 1)
+		if br.Done.Load() {
+			c.Count("boundary_race_completed_inside_the_call", 1)
+		}
+	}
 	node := e.Node
 
 	// (1) every channel a connection reports corresponds to exactly one routing entry
@@ -162,11 +190,11 @@ func TestC04(t *testing.T) {
 	kit.Main(t, kit.Spec{
 		ID:     "C04",
 		Bubble: true,
-		Rule: "each case = one bubble: 2-4 connections x 2-3 channels (some positioned with history); every connection runs a seeded plan of 3-9 operations on two concurrent lanes (client commands: subscribe with synchronous / asynchronous callback incl. callbacks that outlive the 5s unsubscribe wait gate, unsubscribe; server side: Client.Subscribe/Unsubscribe, Node.Subscribe/Unsubscribe) optionally ending in a disconnect (client, node, transport), with seeded virtual delays at the subscribe/unsubscribe yield points. After settling (8 virtual s + quiescence): " +
+		Rule: "each case = one bubble: 2-4 connections x 2-3 channels (some positioned with history); every connection runs a seeded plan of 3-9 operations on two concurrent lanes (client commands: subscribe with synchronous / asynchronous callback incl. callbacks that outlive the 5s unsubscribe wait gate, unsubscribe; server side: Client.Subscribe/Unsubscribe, Node.Subscribe/Unsubscribe) optionally ending in a disconnect (client, node, transport), with seeded virtual delays at the subscribe/unsubscribe yield points; 2 of 5 cases additionally run an unsubscribe / server-side subscribe / close of connection 0 to completion inside one of the calls the library makes to its broker or presence manager (History incl. periodic position checks, Subscribe, Unsubscribe, PublishJoin, PublishLeave, AddPresence, RemovePresence; grid by case index). After settling (8 virtual s + quiescence): " +
 			"IsSubscribed(ch) <=> exactly one hub routing entry of the client's own generation, no leftover reservations, and a marker publication per channel is received exactly once by exactly the connections that report themselves subscribed. Signature = per-connection (closed, #channels) x order of subscribe/unsubscribe/disconnect callbacks.",
 		Assumptions:     []string{"hub routing entries and per-client generations are read through the tag-guarded accessors VerifHubSubs / VerifClient at a quiescent point"},
 		Cases:           map[string]int{"quick": 900, "thorough": 18000},
-		RequireCounters: []string{"settled_subscriptions", "markers_delivered", "markers_withheld"},
+		RequireCounters: []string{"settled_subscriptions", "markers_delivered", "markers_withheld", "boundary_race_broker.History", "boundary_race_broker.Unsubscribe", "boundary_race_presence.Add", "boundary_race_completed_inside_the_call"},
 		Run:             runCase,
 	})
 }
